@@ -76,6 +76,10 @@ impl St {
 #[derive(Resource, Clone)]
 pub struct ShRes(pub Arc<Shared>);
 
+/// Marker on every harness entity; its `on_remove` hook logs the despawn of the entity whatever caused it.
+#[derive(Component)]
+pub struct Tracked;
+
 //-------------------------------------------------------------------------------------------------------------------
 // World reactors
 
@@ -713,6 +717,16 @@ pub fn exec_act(sh: &Arc<Shared>, run: RunId, seq: u32, a: &Act, c: &mut Command
             c.queue(move |w: &mut World| do_despawn_ent(w, &sh2, cmd, e));
             q_post(c, sh, cmd);
         }
+        Act::AutoDespawnEnt(r) => {
+            let e = lk(&sh.st).ent(r);
+            issued(sh, run, seq, cmd, RAct::AutoDespawnEnt { ent: ebits(e) });
+            q_pre(c, sh, cmd);
+            c.queue(move |w: &mut World| {
+                let signal = w.resource::<AutoDespawner>().prepare(e);
+                drop(signal);
+            });
+            q_post(c, sh, cmd);
+        }
         Act::RespawnEnt(slot) => {
             let slot = slot % NE as u8;
             issued(sh, run, seq, cmd, RAct::RespawnEnt { slot });
@@ -1135,7 +1149,7 @@ pub fn do_respawn(w: &mut World, sh: &Arc<Shared>, cmd: CmdId, slot: u8) {
     if w.get_entity(cur).is_ok() || st.ents.len() >= 24 {
         return;
     }
-    let e = w.spawn_empty().id();
+    let e = w.spawn(Tracked).id();
     let idx = st.ents.len();
     st.ents.push(e);
     st.slot_prev[slot as usize] = Some(st.slot_cur[slot as usize]);
@@ -1327,9 +1341,14 @@ pub fn make_world(prog: Arc<Program>, sh: Arc<Shared>) -> Harness {
         w.insert_react_resource(Rr::<0>(0));
         w.insert_react_resource(Rr::<1>(0));
         w.insert_resource(ShRes(sh.clone()));
+        w.register_component_hooks::<Tracked>().on_remove(|w, e, _| {
+            let Some(sh) = w.get_resource::<ShRes>().map(|s| s.0.clone()) else { return };
+            let had = [w.get::<React<Rc<0>>>(e).is_some(), w.get::<React<Rc<1>>>(e).is_some()];
+            sh.push(Ev::EntGone { ent: ebits(e), had });
+        });
         // entities
         for slot in 0..NE {
-            let e = w.spawn_empty().id();
+            let e = w.spawn(Tracked).id();
             {
                 let mut st = lk(&sh.st);
                 st.ents.push(e);
